@@ -336,6 +336,16 @@ func ringIntersectsRing(ring, other Ring, allowOnEdge bool) bool {
 			return true
 		}
 	}
+	if !allowOnEdge {
+		// no piece of the other ring is inside of the ring, but the other
+		// ring may still surround the ring while only touching its edge.
+		ringNumSegments := ring.NumSegments()
+		for i := 0; i < ringNumSegments; i++ {
+			if ringIntersectsSegment(other, ring.SegmentAt(i), allowOnEdge) {
+				return true
+			}
+		}
+	}
 	return false
 }
 
